@@ -34,11 +34,21 @@ def sc1(m, run):
         fi = m.func(key)
         n += 1
         bad = None
+        # locals that hold (a function of) a matrix entry: pivot = matrix_u[i][i]; a_abs = abs(mp[i][j]); ...
+        entry_locals = set()
+        changed = True
+        is_entry = lambda e: any((isinstance(y, ast.Subscript) and isinstance(y.value, ast.Subscript)) or (isinstance(y, ast.Name) and y.id in entry_locals) for y in ast.walk(e))
+        while changed:
+            changed = False
+            for a_ in walk_no_nested(fi.node):
+                if isinstance(a_, ast.Assign) and len(a_.targets) == 1 and isinstance(a_.targets[0], ast.Name) and a_.targets[0].id not in entry_locals and is_entry(a_.value):
+                    entry_locals.add(a_.targets[0].id)
+                    changed = True
         for c in walk_no_nested(fi.node):
             if isinstance(c, ast.Compare):
                 sides = [c.left] + list(c.comparators)
                 lits = [x for x in sides if isinstance(x, ast.Constant) and isinstance(x.value, (int, float)) and not isinstance(x.value, bool) and x.value != 0]
-                entries = [x for x in sides if any(isinstance(y, ast.Subscript) and isinstance(y.value, ast.Subscript) for y in ast.walk(x))]
+                entries = [x for x in sides if is_entry(x)]
                 if lits and entries:
                     bad = c
         run.ob('SC1.scale-free', key, bad is None, 'no matrix entry is compared with a non-zero literal' if bad is None else
